@@ -39,6 +39,10 @@ def mapsAtCls (w : World) : Ty → Obj → Bool
   | .cls _, _ => false
   | .td c, .dict kvs => mapsAtClsF w (w.fields c) kvs
   | .td _, _ => false
+  -- a union position is a class position: `None`, or a mapping that suits every member it could be handed to
+  | .union _ _, .none => true
+  | .union cs _, .dict kvs => cs.all (fun c => mapsAtClsF w (w.fields c) kvs)
+  | .union _ _, _ => false
   | _, _ => true
 termination_by t x => (sizeOf x, sizeOf t)
 decreasing_by
